@@ -70,7 +70,7 @@ def run(ctx):
     if ctx.want("R1"):
         rs = ctx.rule("R1", "a failing walk leaves no trace: handler failure injected at every call, next walks compared with a fresh walker")
         from . import walk_deep as wd
-        res, others, _towers = wd.results(repo, ctx.tier)
+        res, others, _towers = wd.results(repo, ctx.tier, towers=False)
         ctx.analysed["walker_classes_interpreted"] = sorted(set(r["cls"] for r in res))
         ctx.analysed["walker_classes_not_interpreted"] = others
         for r in res:
